@@ -227,6 +227,7 @@ fn lint_case_with(linter: &Linter, case: &Value) -> Value {
   let entry_ast = case["entry"].as_str() == Some("ast");
   let src_len = src.len();
   let mut bounds: Option<Vec<usize>> = None;
+  let mut parse_diags: Option<usize> = None;
   let result: Result<Vec<LintDiagnostic>, String> = if entry_ast {
     match deno_ast::parse_program(deno_ast::ParseParams {
       specifier: spec,
@@ -265,6 +266,7 @@ fn lint_case_with(linter: &Linter, case: &Value) -> Value {
           b.dedup();
           bounds = Some(b);
         }
+        parse_diags = Some(ps.diagnostics().len());
         Ok(ds)
       }
       Err(e) => Err(format!("{}", e.message())),
@@ -274,10 +276,14 @@ fn lint_case_with(linter: &Linter, case: &Value) -> Value {
     Ok(ds) => {
       let out: Vec<Value> =
         ds.iter().map(|d| diag_json(d, src_len, display)).collect();
-      match bounds {
+      let mut v = match bounds {
         Some(b) => json!({ "ok": out, "bounds": b }),
         None => json!({ "ok": out }),
+      };
+      if let Some(n) = parse_diags {
+        v["parse_diags"] = Value::from(n);
       }
+      v
     }
     Err(m) => json!({ "parse_error": m }),
   }
